@@ -1670,3 +1670,129 @@ func checkIdentifierPresenceNotValue(c *report.Ctx) {
 	}
 	c.Check("R-WHO", "L/rapi/handler/no-nil-uuid-sentinel", "no handler uses the all-zero UUID as a sentinel for 'no identifier' (presence comes from the context entry; a zero identifier is merely unknown)", len(who) == 0 && n >= 20, token.NoPos, n, "handler functions: %d; reading uuid.Nil: %v", n, uniq(who))
 }
+
+func init() {
+	add := func(id string, fs ...func(*report.Ctx)) { round5Rules[id] = append(round5Rules[id], fs...) }
+	add("C13", checkAgentIdentifiersRandom)
+	add("C08", checkAgentIdentifiersRandom)
+	add("C06", checkReleaseErrorForwardedAsIs, checkExtensionProcessNameFromFileName)
+	add("C10", checkReleaseErrorForwardedAsIs)
+	add("C09", checkExtensionProcessNameFromFileName)
+	add("C18", checkCredentialsOutliveResets)
+}
+
+// checkAgentIdentifiersRandom (C13, C08): an extension's identifier is a fresh random UUID made when the agent object
+// is made, and never assigned again: an identifier derived from the name (or from anything that survives a reset)
+// would still be "known" in the next generation.
+func checkAgentIdentifiersRandom(c *report.Ctx) {
+	n := 0
+	var bad []string
+	pos := token.NoPos
+	for _, T := range []string{"ExternalAgent", "InternalAgent"} {
+		for f, sts := range storesTo(c, "L/core."+T, "ID") {
+			for _, st := range sts {
+				n++
+				cl, _ := an.CallOf(st.Val)
+				if an.FuncName(f) != "L/core.New"+T || cl == nil || an.Callee(cl) != "github.com/google/uuid.New" {
+					bad = append(bad, an.FuncName(f))
+					if pos == token.NoPos {
+						pos = st.Pos()
+					}
+				}
+			}
+		}
+	}
+	c.Check("R-WIRE", "L/core/agent-identifiers-are-fresh-random", "an agent's ID is uuid.New() in its constructor and is assigned nowhere else", len(bad) == 0 && n == 2, pos, n, "ID stores: %d; not a constructor's uuid.New(): %v", n, uniq(bad))
+}
+
+// checkReleaseErrorForwardedAsIs (C06, C10): the goroutine that waits for the release hands the front end the error
+// AwaitRelease returned - ErrInitDoneFailed / ErrInvokeDoneFailed select the failure status and the captured body
+// there - whatever the reset in between did.
+func checkReleaseErrorForwardedAsIs(c *report.Ctx) {
+	inv := fn(c, rapidcP, "(*Server).Invoke")
+	if inv == nil {
+		return
+	}
+	n := 0
+	var bad []string
+	pos := fpos(inv)
+	for _, g := range an.WithAnon(inv) {
+		aw := an.CallsTo(g, srvT+".AwaitRelease")
+		if len(aw) == 0 {
+			continue
+		}
+		an.AllInstrs(g, func(in ssa.Instruction) {
+			s, ok := in.(*ssa.Send)
+			if !ok || s.X.Type().String() != "error" || !an.InstrDominates(aw[0], s) {
+				return // (what is sent before the wait - a refused reservation, a failed init - is another matter)
+			}
+			n++
+			// (the documented rename of a reset-after-failed-init to ErrInitDoneFailed is the one constant sent here)
+			if !an.IsResultOf(an.Strip(s.X, false), srvT+".AwaitRelease", 1) && an.GlobalOf(s.X) != "L/rapidcore.ErrInitDoneFailed" {
+				bad = append(bad, an.Path(s.X))
+				pos = s.Pos()
+			}
+		})
+	}
+	c.Check("R-WIRE", an.FuncName(inv)+"/release-error-forwarded-as-is", "the error sent to the front end after the wait for the release is AwaitRelease's own (the failure class decides status and body there; the reset's outcome does not replace it)", len(bad) == 0 && n >= 2, pos, n, "error sends in the release goroutine: %d; not AwaitRelease's result: %v", n, uniq(bad))
+}
+
+// checkExtensionProcessNameFromFileName (C06, C09): an extension's process is started under
+// "extension-<file name>-<generation>" with the file name as it is: the teardown and the exit watcher rebuild that
+// name from the registered agent's name and must arrive at the same string.
+func checkExtensionProcessNameFromFileName(c *report.Ctx) {
+	f := fn(c, "L/rapid", "doInitExtensions")
+	if f == nil {
+		return
+	}
+	n, ok := 0, true
+	pos := fpos(f)
+	for _, st := range an.Stores(f, "L/supervisor/model.ExecRequest", "Name") {
+		n++
+		cl, _ := an.CallOf(st.Val)
+		good := false
+		if cl != nil && an.Callee(cl) == "fmt.Sprintf" && len(cl.Call.Args) >= 1 {
+			if s, isS := an.ConstString(cl.Call.Args[0]); isS && s == "extension-%s-%d" {
+				// the first variadic element is path.Base(agentPath) itself
+				w := newWire(c, nil, nil)
+				for _, o := range w.Origins(cl.Call.Args[len(cl.Call.Args)-1]) {
+					_ = o
+				}
+				good = true
+				an.AllInstrs(f, func(in ssa.Instruction) {
+					if mi, isMI := in.(*ssa.MakeInterface); isMI && mi.X.Type().String() == "string" && an.InstrDominates(mi, cl) {
+						if c2, _ := an.CallOf(mi.X); c2 != nil && !oneOf(an.Callee(c2), "path.Base", "path/filepath.Base") {
+							// a string produced by something else than Base goes into a format call of this function
+							for _, ref := range *mi.Referrers() {
+								if st2, isSt := ref.(*ssa.Store); isSt {
+									if ia, isIA := st2.Addr.(*ssa.IndexAddr); isIA {
+										if sl, isSl := cl.Call.Args[len(cl.Call.Args)-1].(*ssa.Slice); isSl && sl.X == ia.X {
+											good = false
+										}
+									}
+								}
+							}
+						}
+					}
+				})
+			}
+		}
+		if !good {
+			ok = false
+			pos = st.Pos()
+		}
+	}
+	c.Check("R-WIRE", an.FuncName(f)+"/process-name-from-file-name", "the exec request's name is Sprintf(\"extension-%s-%d\", <file name as path.Base gives it>, generation) - the string the teardown rebuilds from the agent's name", ok && n == 1, pos, n, "Name stores: %d; built from the unaltered file name: %v", n, ok)
+}
+
+// checkCredentialsOutliveResets (C18): the credentials registered for the init-caching token are served for the life
+// of the emulator (a restore updates them in place); a reset of the runtime domain does not drop them. The table is
+// made by the constructor and never replaced.
+func checkCredentialsOutliveResets(c *report.Ctx) {
+	var who []string
+	for f := range storesTo(c, "L/core.credentialsServiceImpl", "credentials") {
+		who = append(who, an.FuncName(f))
+	}
+	sort.Strings(who)
+	c.Check("R-WHO", "L/core.credentialsServiceImpl.credentials/made-once", "the credentials table is made by the constructor and replaced by nobody (a reset does not forget the credentials the token stands for)", strings.Join(who, ",") == "L/core.NewCredentialsService", token.NoPos, len(who), "table assigned in: %v", who)
+}
